@@ -65,6 +65,8 @@ theorem nd_sumSimplify {e : Expr} {r : List Var} (he : SumND e) (hr : r.Nodup) :
   split
   · simp only []
     split
+    · exact ⟨he, hr⟩
+    split
     · simp [SumND]
     · split
       · simp only [SumND, true_and]
